@@ -1,0 +1,25 @@
+//go:build verif
+
+package eviction
+
+import (
+	"volcano.sh/volcano/pkg/agent/events/framework"
+	"volcano.sh/volcano/pkg/agent/oversubscription/policy"
+	"volcano.sh/volcano/pkg/agent/utils/eviction"
+	utilnode "volcano.sh/volcano/pkg/agent/utils/node"
+	utilpod "volcano.sh/volcano/pkg/agent/utils/pod"
+	"volcano.sh/volcano/pkg/config"
+)
+
+// NewManagerForVerif builds the pressure-event handler as NewManager does,
+// with the evictor, policy and node / pod getters given by the caller.
+func NewManagerForVerif(cfg *config.Configuration, evictor eviction.Eviction, p policy.Interface,
+	getNode utilnode.ActiveNode, getPods utilpod.ActivePods) framework.Handle {
+	return &manager{
+		cfg:         cfg,
+		Eviction:    evictor,
+		Interface:   p,
+		getNodeFunc: getNode,
+		getPodsFunc: getPods,
+	}
+}
